@@ -189,10 +189,28 @@ func (packet *Packet) SetParameters(values []base.BoundValue) (err error) {
 	resultData := make([]byte, len(packet.data[:pos]), len(packet.data))
 	copy(resultData, packet.data[:pos])
 
+	// parameters that were not changed keep their exact bytes: type, signedness flag, NULL marker
+	original, err := packet.GetBindParameters(len(values))
+	if err != nil {
+		return err
+	}
+	nullBitmap := packet.data[10 : 10+(len(values)+7)>>3]
+	isNull := func(i int) bool { return nullBitmap[i/8]&(1<<(uint(i)%8)) > 0 }
+	unchanged := func(i int) bool {
+		oldData, _ := original[i].GetData(nil)
+		newData, _ := values[i].GetData(nil)
+		return original[i].GetType() == values[i].GetType() && (oldData == nil) == (newData == nil) && bytes.Equal(oldData, newData)
+	}
+
 	// params amount shift
 	for i := 0; i < len(values); i++ {
 		paramType := packet.data[pos : pos+2]
 		boundType := values[i].GetType()
+		if isNull(i) || unchanged(i) {
+			resultData = append(resultData, paramType...)
+			pos += 2
+			continue
+		}
 
 		// we need to check if the type was changed during tokenization
 		if paramType[0] != boundType {
@@ -223,6 +241,10 @@ func (packet *Packet) SetParameters(values []base.BoundValue) (err error) {
 	}
 
 	for i := 0; i < len(values); i++ {
+		// NULL parameters are announced in the NULL bitmap and have no value bytes
+		if isNull(i) {
+			continue
+		}
 		encoded, err := values[i].Encode()
 		if err != nil {
 			return err
